@@ -10,7 +10,8 @@ from pbv import core, loopsuite, scen, shots
 def scenarios(rng: random.Random, n: int, thorough: bool):
     scs = []
     for i in range(n):
-        mode = ["zeroed", "barrel_below", "muzzle_above", "on_line", "transonic", "subsonic", "high_arc", "inclined"][i % 8]
+        mode = ["zeroed", "barrel_below", "muzzle_above", "on_line", "transonic", "subsonic", "high_arc", "inclined",
+                "muzzle_above_barrel_below"][i % 9]
         p = shots.gen_shot(rng, winds=rng.choice([0, 1]), look=0.0)
         p["sight_in"] = rng.choice([1.5, 2.0, 3.2])
         sc = {"extra": True, "unit": "Foot"}
@@ -21,6 +22,14 @@ def scenarios(rng: random.Random, n: int, thorough: bool):
         elif mode == "muzzle_above":
             p["sight_in"] = -1.0
             p["rel_rad"] = rng.choice([0.0, 0.001])
+        elif mode == "muzzle_above_barrel_below":
+            # sight below the bore and the barrel pointing below the sight line: one downward crossing, no upward one
+            p["sight_in"] = rng.choice([-2.0, -0.5])
+            if rng.random() < 0.5:
+                sc["zero_yd"] = 25
+            else:
+                p["rel_rad"] = rng.choice([-0.001, -0.003])
+            p["look_deg"] = rng.choice([0.0, 12.0, -7.0])
         elif mode == "on_line":
             p["sight_in"] = 0.0
             p["rel_rad"] = rng.choice([0.0005, -0.0005, 0.0])
@@ -55,7 +64,7 @@ def run(chk: core.Check, replay=None) -> None:
     behs = loopsuite.gen_behaviours(chk, 3000 if thorough else 400, chk.seed + 15)
     loopsuite.object_replay(chk, "C15", behs)
     rng = random.Random(chk.seed * 17 + 15)
-    outs = scen.run_batch(scenarios(rng, 320 if thorough else 32, thorough))
+    outs = scen.run_batch(scenarios(rng, 360 if thorough else 36, thorough))
     pairs = []
     for o in outs:
         fl = set(o.get("summ", {}).get("flags_seen", []))
@@ -80,7 +89,7 @@ def run(chk: core.Check, replay=None) -> None:
     chk.sample({"scenario": o["sc"], "flag_lines": [l for l in o["lines"] if l["ev"] == "Iter" and set(l["fl"]) & {"U", "D", "M"}][:3]})
     chk.sample({"tlc_behaviour": {k: v for k, v in behs[1].items() if k != "consts"}})
     chk.require_strata(["obj_flag_U", "obj_flag_D", "obj_flag_M", "real_flag_U", "real_flag_D", "real_flag_M", "inclined_sight_line",
-                        "zeros_accessor", "mode_barrel_below", "mode_muzzle_above", "mode_on_line"])
+                        "zeros_accessor", "mode_barrel_below", "mode_muzzle_above", "mode_on_line", "mode_muzzle_above_barrel_below"])
     chk.exhaustive = False
     chk.rule.append("design: Integrator.tla C15_* over every side/sup sequence of the bounded model for each muzzle/barrel configuration; "
                     "spec->code: TLC behaviours replayed into the real _TrajectoryDataFilter (flags and seen_zero after every call); "
